@@ -136,7 +136,7 @@ func init() {
 	extraRules["C14"] = both(stale("proof"), loopShare("proof"))
 	extraRules["C13"] = both(stale("share/pvss", "proof/dleq"), roTargetsFor("share/pvss.", "proof/dleq."), loopShare("share/pvss", "proof/dleq"),
 		func(c *Ctx) { AccGate(c, "default", "C13") })
-	extraRules["C06"] = roTargetsFor(").Pair", ").ValidatePairing")
+	extraRules["C06"] = both(roTargetsFor(").Pair", ").ValidatePairing"), func(c *Ctx) { SiblingSkeletonCheck(c, "default") })
 	extraRules["__ro_c08"] = roTargetsFor("sign/eddsa.", "sign/schnorr.", "sign/anon.Verify", "sign/anon.Sign")
 	// ciphertexts, keys and messages are inputs only: a decryptor that writes into its ciphertext can
 	// make its own integrity comparison vacuous (anon header) or break a second decryption
@@ -240,6 +240,7 @@ func init() {
 		NilBase(c, "default")
 		CheckMustWrite(c, "C01")
 		SiblingAgreement(c, "default")
+		SiblingSkeletonCheck(c, "default")
 		if p := c.Prog("default"); p != nil {
 			an := efx.NewAnalyzer(p)
 			EFXGlobals(c, "default", an)
@@ -261,6 +262,7 @@ func tierConfigs(c *Ctx) []string {
 func init() {
 	Register(&Property{ID: "C18", Trusted: commonTrusted, RuleText: "SH-SIBCONST / SH-CONFIG / EFX per configuration", Explanation: "implementations agree (structure)", Run: func(c *Ctx) {
 		SiblingConstants(c, "default")
+		SiblingSkeletonCheck(c, "default")
 		// the three scalar-multiplication algorithms / build variants must each assign their whole output on every path
 		CheckMustWrite(c, "C01")
 		cfgs := []string{"default", "ct", "generic"}
